@@ -46,11 +46,9 @@ func (f *fClient) readLoop() {
 				return
 			}
 		}
-		p, err := readPkt(f.c, 200*time.Millisecond)
+		// no deadline: a deadline that expires in the middle of a packet would lose the framing
+		p, err := readPkt(f.c, time.Hour)
 		if err != nil {
-			if ne, ok := err.(net.Error); ok && ne.Timeout() {
-				continue
-			}
 			atomic.StoreInt32(&f.closed, 1)
 			return
 		}
@@ -309,21 +307,16 @@ func runFaults(sc *fScenario) (string, string) {
 				w([]byte{0x30, 0x03, 0x00, 0x00, 'x'})
 			}
 			if !selfCut {
-				// only the offender is affected: its connection is closed (or, for input that is
-				// merely incomplete, keeps waiting); here every kind is a protocol error
-				ok := false
-				deadline := time.Now().Add(faultDeadline)
+				// the property does not ask for the offender to be closed, only that nobody else is
+				// affected: give the broker a moment to react, then the attacker goes away
+				deadline := time.Now().Add(150 * time.Millisecond)
 				for time.Now().Before(deadline) {
-					if _, err := readPkt(cl, 300*time.Millisecond); err != nil {
+					if _, err := readPkt(cl, 50*time.Millisecond); err != nil {
 						if ne, isNet := err.(net.Error); isNet && ne.Timeout() {
 							continue
 						}
-						ok = true
 						break
 					}
-				}
-				if !ok {
-					return fmt.Sprintf("%s: the offending connection is still open %v after the malformed input", where, faultDeadline), "C05"
 				}
 			}
 			a.cut = true
@@ -396,6 +389,87 @@ func runFaults(sc *fScenario) (string, string) {
 	return "", ""
 }
 
+// ringPointerRace forces the one adverse interleaving of a delivery with the teardown of its target:
+// the innocent publisher's processor is held inside the victim's writeMessage right after the test of
+// the ring pointer (yield site wm.checked), the victim is cut and torn down completely, then the
+// publisher goes on. The publisher's connection must survive (C05: only the offender is affected).
+func ringPointerRace() string {
+	r := newBrokerRun("mockSuccess", 2)
+	fr := &faultRun{r: r, cl: map[string]*fClient{}}
+	defer func() {
+		service.VerifYieldFn = nil
+		for _, f := range fr.cl {
+			f.cut = true
+			f.c.Close()
+		}
+		r.cleanup()
+	}()
+	victim, e := fr.connect("S", "racevictim", "r")
+	if e != "" {
+		return e
+	}
+	innocent, e := fr.connect("P", "raceinnocent")
+	if e != "" {
+		return e
+	}
+	arrived := make(chan struct{}, 1)
+	release := make(chan struct{})
+	var armed int32 = 1
+	service.VerifYieldFn = func(obj int64, site string) {
+		if site == "wm.checked" && obj == -int64(victim.svc) && atomic.CompareAndSwapInt32(&armed, 1, 0) {
+			arrived <- struct{}{}
+			<-release
+		}
+	}
+	fr.write(innocent, pkt(0x30, append(lp([]byte("r")), []byte("race")...)), time.Second)
+	select {
+	case <-arrived:
+	case <-time.After(3 * time.Second):
+		return "INFRA the delivery never reached the yield point wm.checked"
+	}
+	victim.cut = true
+	victim.c.Close()
+	if !waitStop(victim.svc, faultDeadline) {
+		close(release)
+		return "the victim's teardown did not finish while a delivery to it was in progress"
+	}
+	close(release)
+	// the innocent publisher must still be served
+	for len(innocent.rx) > 0 {
+		<-innocent.rx
+	}
+	if err := fr.write(innocent, []byte{0xc0, 0}, time.Second); err != nil {
+		return "the innocent publisher's connection was closed: " + err.Error()
+	}
+	select {
+	case p := <-innocent.rx:
+		if p.first != 0xd0 {
+			return fmt.Sprintf("the innocent publisher received %x instead of PINGRESP", p.first)
+		}
+	case <-time.After(3 * time.Second):
+		return fmt.Sprintf("a publisher whose delivery raced with the teardown of the subscriber is no longer served (connection closed by the broker: %v)", atomic.LoadInt32(&innocent.closed) == 1)
+	}
+	return ""
+}
+
+func cmdRace(a Args) {
+	res := newResult()
+	n := a.num("n", 20)
+	for i := 0; i < n; i++ {
+		res.Evaluations++
+		res.Steps += 5
+		d := ringPointerRace()
+		if strings.HasPrefix(d, "INFRA") {
+			res.Notes = append(res.Notes, d)
+			res.Counts["infra"]++
+		} else if d != "" {
+			res.mismatch(Mismatch{What: d, Tag: "C05", Replay: map[string]interface{}{"schedule": []string{"I: PUBLISH r", "I.processor: V.writeMessage reaches wm.checked (held)", "V: cut", "V: teardown finished", "I.processor: released", "I: PINGREQ"}}})
+		}
+	}
+	res.Samples = append(res.Samples, []string{"I: PUBLISH r", "I.processor held at wm.checked in V.writeMessage", "V cut, teardown finished", "release", "I: PINGREQ -> PINGRESP"})
+	res.emit()
+}
+
 func cmdFaults(a Args) {
 	res := newResult()
 	maxKeptMismatches = 40
@@ -448,4 +522,4 @@ func cmdFaults(a Args) {
 	res.emit()
 }
 
-func init() { commands["faults"] = cmdFaults }
+func init() { commands["faults"] = cmdFaults; commands["race"] = cmdRace }
